@@ -46,6 +46,9 @@ prop("C02", claimed=False, jobs=14, timeout=900, mir=None, level_text="", level_
 prop("C03", claimed=False, jobs=14, timeout=900, mir=None, level_text="", level_note="")
 prop("C04", claimed=False, jobs=14, timeout=900, mir=None, level_text="", level_note="")
 
+for _p in ("C09", "C10", "C11", "C15", "C16"):
+    prop(_p, claimed=False, jobs=14, timeout=600, mir=None, level_text="", level_note="")
+
 
 def bounds_of(prop_id, short):
     """human-readable bound of one harness, derived from its name suffixes"""
